@@ -68,6 +68,7 @@ class FakeKernel:
         self.port_ids_like_linux = True
         self.multipart_replies = True      # every third reply datagram starts with an NLMSG_NOOP message
         self.socket_faults = {}  # request index -> errno: creating the netlink socket for that request fails with OSError
+        self.recv_faults = {}    # request index -> errno: the request is handled, but reading its answer fails with OSError (the answer stays queued in that socket)
         self.fault_types = {}    # request name (NEWSA, DELSA, ...) -> the same, for EVERY request of that type (a persistent refusal)
         self.events = collections.deque()   # kernel -> daemon messages waiting on the event socket
         self.listeners = []
@@ -161,18 +162,30 @@ class FakeKernel:
 
 
 class _NlSock:
+    """A request socket is like a real one: it talks to the kernel of the process that USES it (several daemons live in this process: a socket object kept by the
+    library across requests must not tie one daemon to another one's kernel), and what the kernel answered waits in ITS receive queue until it is read."""
+
     def __init__(self, kernel, groups):
-        self.kernel, self.groups, self.reply = kernel, groups, b''
+        self.kernel, self.groups, self.queue, self.last = kernel, groups, [], None
 
     def send(self, data):
-        self.reply = self.kernel.handle(data)
+        k = W.cur.kernel if (W.cur is not None and not self.groups) else self.kernel
+        self.last = (k, len(k.requests))
+        self.queue.append(k.handle(data))
         return len(data)
 
     def recv(self, n):
         if self.groups:
             return self.kernel.events.popleft()
-        r, self.reply = self.reply, b''
-        return r
+        if self.last is not None:
+            k, idx = self.last
+            err = k.recv_faults.pop(idx, None) if getattr(k, 'recv_faults', None) else None
+            if err is not None:
+                # the kernel did what it did, but its verdict cannot be read (ENOBUFS: it had to drop a message for this socket): the answer stays unread
+                if W.cur is not None and W.cur.step_faults is not None:
+                    W.cur.step_faults.append(('netlink-recv', idx, err))
+                raise OSError(err, 'injected failure to read the answer of the kernel')
+        return self.queue.pop(0) if self.queue else b''
 
     def bind(self, addr=(0, 0), *a):
         if self.groups is None:
